@@ -438,7 +438,7 @@ func genMbRequest(r *vlib.R, spec mbMapSpec) (byte, []byte) {
 
 func runC18(tier string, _ []string) int {
 	c := vlib.NewCtx("C18", tier, "exploration")
-	c.SetRule("requests: function codes 1,2,3,4,5,6,15,16 from structured generators (address and quantity at 0,1,limit-1,limit,limit+1,2040/2041,0x7FFF,0x8000,0xFFFF, straddling the end of each mapped range and 65535->0; byte counts off by one; validator-friendly and hostile values; truncations and extra bytes) plus raw random (function code 0..255, random data), replayed as a stateful sequence against 7 register maps (empty, sparse, dense, dense with validators, top of address space, coil top, coils only). Oracle: reference server written from the Modbus spec v1.1b3; compared: response PDU, error return, register file (addressed registers every request, the whole file every 64 requests). distinct = (map, model outcome class, actual outcome) Finally 3-8 goroutines call ProcessRequest on one register file at once (as the handlers of a TCP server do), each writing coils only it owns inside registers shared with the others, reading each back and comparing all at rest.")
+	c.SetRule("requests: function codes 1,2,3,4,5,6,15,16 from structured generators (address and quantity at 0,1,limit-1,limit,limit+1,2040/2041,0x7FFF,0x8000,0xFFFF, straddling the end of each mapped range and 65535->0; byte counts off by one; validator-friendly and hostile values; truncations and extra bytes) plus raw random (function code 0..255, random data), replayed as a stateful sequence against 7 register maps (empty, sparse, dense, dense with validators, top of address space, coil top, coils only). Oracle: reference server written from the Modbus spec v1.1b3; compared: response PDU, error return, register file (addressed registers every request, the whole file every 64 requests). distinct = (map, model outcome class, actual outcome) Finally 3-8 goroutines call ProcessRequest on one register file at once (as the handlers of a TCP server do), each writing coils only it owns inside registers shared with the others, reading each back and comparing all at rest. About 3% of the steps extend the live register file between two requests (AddReg next to existing registers, AddCoil, a validator on an existing register); the model follows.")
 	c.Assume("tolerances: two simultaneous exception causes accept either code; truncated PDUs may get an exception or an error return; extra trailing bytes or a disagreeing byte-count byte with consistent length may be processed or refused with exception 3; multi-writes refused with an exception may leave addressed registers in any state")
 	nReq := c.N(600000, 20000000)
 	perSeq := 400
@@ -465,6 +465,46 @@ func runC18(tier string, _ []string) int {
 			return true
 		}
 		for k := 0; k < perSeq; k++ {
+			if r.Chance(0.03) {
+				// the application extends the live register file (as node/modbus.go does when IO nodes are
+				// added): new registers, a coil's register, a validator on an existing register
+				switch r.Intn(3) {
+				case 0:
+					a0, n := r.Intn(0xfff0), 1+r.Intn(4)
+					if len(addrs) > 0 && r.Chance(0.5) {
+						a0 = addrs[r.Intn(len(addrs))] + 1 // next to / overlapping existing ones
+					}
+					if a0+n > 0x10000 {
+						a0 = 0x10000 - n // AddReg takes an int and truncates it to 16 bits: stay inside the address space
+					}
+					regs.AddReg(a0, n)
+					for q := 0; q < n; q++ {
+						if _, ok := model.regs[uint16(a0+q)]; !ok && a0+q <= 0xffff {
+							model.regs[uint16(a0+q)] = 0
+							addrs = append(addrs, a0+q)
+						}
+					}
+				case 1:
+					coil := r.Intn(0xffff)
+					regs.AddCoil(coil)
+					if _, ok := model.regs[uint16(coil/16)]; !ok {
+						model.regs[uint16(coil/16)] = 0
+						addrs = append(addrs, coil/16)
+					}
+				default:
+					if len(addrs) > 0 {
+						a := addrs[r.Intn(len(addrs))]
+						if _, has := model.valid[uint16(a)]; !has {
+							vi := r.Intn(len(mbValidators))
+							if err := regs.AddRegValueValidator(a, mbValidators[vi].F); err == nil {
+								model.valid[uint16(a)] = vi
+							}
+						}
+					}
+				}
+				sort.Ints(addrs)
+				c.Count("live_register_file_changes", 1)
+			}
 			fc, d := genMbRequest(r, spec)
 			exp := model.expect(fc, d)
 			wit := map[string]any{"map": spec.Name, "seq": si, "step": k, "fc": fc, "data": d, "class": exp.Class}
